@@ -175,7 +175,8 @@ class IdsLeg(object):
                 recs.append({"cols": [draw(st.sampled_from(["chr1", "chr2", "c"])), draw(st.sampled_from(["s1", "s2"])), ft,
                                       str(start), str(start + draw(st.integers(0, 50))), ".", draw(st.sampled_from(["+", "-"])), "."],
                              "attrs": attrs, "extras": []})
-            return {"gtf": gtf, "records": recs, "spec": draw(st.sampled_from(SPECS)),
+            return {"gtf": gtf, "records": recs, "spec": draw(st.sampled_from(SPECS)), "split": draw(st.sampled_from([0, 0, 1, n // 2])),
+                    "file_db": draw(st.booleans()),
                     "probe": draw(st.sampled_from(["x", "", "%", "_", "UP", "low", "pre", "sp"]))}
 
         def ok(c):
@@ -200,6 +201,8 @@ class IdsLeg(object):
             labels.append("duplicate-keys")
         if auto:
             labels.append("auto-numbered")
+        if case.get("split") and 0 < case["split"] < len(case["records"]):
+            labels.append("tail-through-update")
         return auto or multi or case["spec"] in ("ID,Name", "Name,ID", "Alias,ID", "dict", "dict2"), labels
 
     def check(self, case, ctx):
@@ -226,7 +229,19 @@ class IdsLeg(object):
                                % (type(e).__name__, e), sig={"kind": "multi-wrong-exception"})
             ids = [f.id for f in db.all_features()]
             return Failure("an id attribute with several values was accepted; stored ids %r" % ids, sig={"kind": "multi-accepted"})
-        db = gffutils.create_db(path, ":memory:", **kw)
+        k = case.get("split") or 0
+        if 0 < k < len(recs):
+            # the tail arrives through update() with the same id_spec: numbering continues, look-ups follow
+            p1 = ctx.write("i1.txt", "\n".join(lines[:k]) + "\n")
+            p2 = ctx.write("i2.txt", "\n".join(lines[k:]) + "\n")
+            dbfn = ctx.path("ids.db") if case.get("file_db") else ":memory:"
+            db = gffutils.create_db(p1, dbfn, **kw)
+            for f in list(db.all_features()):
+                db[f.id]  # looked at before the update
+            ukw = dict((a, b) for a, b in kw.items() if a != "keep_order" and not (a == "id_spec" and b is None))
+            db.update(p2, make_backup=False, **ukw)
+        else:
+            db = gffutils.create_db(path, ":memory:", **kw)
         want = resolve_unique(keys) if dup else keys
         feats = list(db.all_features())
         got = [f.id for f in feats]
